@@ -26,8 +26,8 @@ func p4Opts(c *ctx, k int) sysh.Opts {
 // histories end with the agent killed and restarted against the same switch.
 func c04(c *ctx) {
 	r := c.rng
-	runs := c.pick(6, 60)
-	steps := c.pick(25, 60)
+	runs := c.pick(6, 400)
+	steps := c.pick(25, 80)
 	for k := 0; k < runs; k++ {
 		w, err := newWorld(c, p4Opts(c, k))
 		if err != nil {
